@@ -40,10 +40,67 @@ class PE(Ctx5):
         return None
 
 
+def index_walk(prog, am, f, header, body):
+    """index form of a schedule walk: schedule[iv + c] with an integer induction variable stepping by +1 or -1.
+    Returns (direction, start_ok, detail) or None when the loop does not index the schedule that way."""
+    P = PE(f)
+    for bb in body:
+        for i in f.bbmap[bb]["insts"]:
+            if i["op"] != "getelementptr" or len(i["gep"]["vars"]) != 1:
+                continue
+            a = am.of(["i", i["id"]])
+            if a is None or not a.segs[-1].ty or a.root[0] != "arg":
+                continue
+            seg = a.segs[-1]
+            o = seg.off if seg.off is not None else (seg.rng[0] if seg.rng else None)
+            if o is None or "schedule" not in prog.describe(seg.ty, o):
+                continue
+            l = P.lf(i["gep"]["vars"][0][0])
+            if l is None or len(l[1]) != 1 or l[1][0][1] != 1 or l[1][0][0][0] != "i":
+                continue
+            ph = f.insts.get(l[1][0][0][1])
+            if ph is None or ph["op"] != "phi" or f.bb_of[ph["id"]] != header:
+                continue
+            step = start = None
+            for v, pb in zip(ph["ops"], ph["inblocks"]):
+                if pb in body:
+                    d = P.lf(v)
+                    if d is not None:
+                        dd = lf_add(d, (0, ((("i", ph["id"]), 1),)), -1)
+                        if lf_is_const(dd):
+                            step = dd[0]
+                            bits = ph.get("bits", 32)
+                            if step >= 1 << (bits - 1):
+                                step -= 1 << bits
+                else:
+                    start = P.lf(v)
+            if step not in (1, -1) or start is None:
+                continue
+            first = lf_add(start, lf_const(l[0]))          # index used in the first iteration
+            if step == 1:
+                ok = lf_is_const(first) and first[0] == 0
+                return "forward", ok, "indexes schedule[%s] upwards from %s" % (lf_str(l), lf_str(first))
+            # backward: first index must be rounds - 1 of the same key schedule
+            ok = False
+            if first[0] == -1 and len(first[1]) == 1 and first[1][0][1] == 1 and first[1][0][0][0] == "i":
+                ld = f.insts.get(first[1][0][0][1])
+                if ld is not None and ld["op"] == "load":
+                    ra = am.of(ld["ops"][0])
+                    if ra is not None and ra.segs[-1].ty and ra.segs[-1].off is not None and \
+                            prog.describe(ra.segs[-1].ty, ra.segs[-1].off)[-1:] == ["rounds"] and ra.root == a.root:
+                        ok = True
+            return "backward", ok, "indexes schedule[%s] downwards from %s" % (lf_str(l), lf_str(first))
+    return None
+
+
 def schedule_direction(prog, an, f):
     """'forward' / 'backward' / None: how the function walks the key schedule array."""
     s = an.summaries[f.key]
     am = s.fa.am
+    for header, body in f.loops().items():
+        iw = index_walk(prog, am, f, header, body)
+        if iw is not None:
+            return iw[0]
     for header, body in f.loops().items():
         for i in f.bbmap[header]["insts"]:
             if i["op"] != "phi" or not i["type"].endswith("*"):
